@@ -33,16 +33,14 @@ TRUSTED_BASE = [
     "correspondence harness tools/props/c02.py, tools/props/c02_index.py, tools/vlib.py",
 ]
 UNPROVED = [
-    "gcxs_getitem_den / gcxs_getitem_wf are proved for every well-formed 2-d GCXS (CSR and CSC) and every basic index "
-    "without None (Props: gcxs_getitem_den_2d_partial, gcxs_getitem_wf_2d_partial; result = GCXS.from_coo of the COO result). "
-    "NOT proved: ndim >= 3 (Model/GcxsGetitem.v:gcxs_getitem_nd is modelled for every ndim and tied by exact correspondence; the "
-    "layout-independent lemmas of Proofs/GcxsGetitemP.v — kernels on a from_coo array, master_members/master_gsorted, assemble_nd/"
-    "assemble_1d, single_element_den, convert_to_flat_ravel — hold for every ndim, but the bridge between result indices and "
-    "(row, column) numbers and the re-splitting branches `uncompressed // size` are only instantiated for ndim = 2)",
     "GCXS indices containing None in the positions the code handles correctly (at least two surviving axes, no integer before "
-    "the None): modelled (reinsert_none) and tested by exact correspondence, not proved",
-    "GCXS indices with ONE index array (get_array_selection through the wrapper): kernel proved (gcxs_selection_spec), wrapper "
-    "modelled and tested, the wrapper theorem not proved",
+    "the None): modelled (Model/GcxsGetitem.v reinsert_none) and tested by exact correspondence, NOT proved — "
+    "gcxs_getitem_den_partial / gcxs_getitem_wf_partial (every ndim >= 2, every compressed-axes choice, every basic index) "
+    "assume an index without None",
+    "GCXS indices with ONE index array (get_array_selection reached through the wrapper): kernel proved (gcxs_selection_spec), "
+    "wrapper modelled and tested by exact correspondence, the wrapper theorem NOT proved",
+    "the GCXS theorems assume strictly increasing compressed axes (GCXS.__init__ -> check_compressed_axes enforces it; "
+    "c05's gcxs_wfb does not record it, so it is a separate hypothesis)",
     "the scalar-vs-0-d rule for indices with arrays (never scalar on either side) is not stated separately",
 ]
 ASSUMPTIONS = ["element values are opaque; dtype handling is not modelled"]
